@@ -752,6 +752,9 @@ Next == \/ \E a \in Actors : ActorNext(a)
 
 Spec     == Init /\ [][Next]_vars
 FairSpec == Spec /\ \A a \in Actors : WF_vars(ActorNext(a))
+\* every behaviour is finite (bounded sessions, operations, retries), so fairness of Next as a whole gives the same
+\* guarantees as per-actor fairness and is much cheaper for TLC (one ENABLED per state)
+FairSpec1 == Spec /\ WF_vars(Next)
 
 -----------------------------------------------------------------------------
 (* Properties *)
@@ -788,6 +791,7 @@ NeverBlockedByDead ==   \* nobody who is outside a session (or dead) is in the w
                     /\ pre[p] # 0 => ~Resting(pre[p]) /\ th[pre[p]].pid \notin dead
 
 LockEventuallyFree == \A a \in Actors : \A p \in Pids : (lock[p] = a) ~> (lock[p] # a)
+LockEventuallyFree1 == \A a \in Actors : (lock[1] = a) ~> (lock[1] # a)       \* configurations without fork: one process
 Terminates == <>[]AllDone
 
 \* C17 -------------------------------------------------------------------------------
